@@ -278,6 +278,17 @@ def two_roots(task):
                 viol.append((['two-project-roots', 'tree-of-the-other-directory' if got == want['B' if name == 'A' else 'A'] else 'tree-differs', f'step={step}'],
                              f'session {step} in directory {name}: {p}: got {got.get(p)!r}, the file there gives {want[name].get(p)!r}', {'two_roots': [src_a, src_b]}))
                 break
+        if not viol:
+            # the file in directory A is saved again with the other text within the same second (mtime + 0.5 s): the next
+            # session must see the tree of the text that is in the file now
+            fp = os.path.join(root_a, pkg, 'm.py')
+            with open(fp, 'w') as f:
+                f.write(src_b)
+            os.utime(fp, (1700000000.5, 1700000000.5))
+            got = node_table(Session({}, cache=True), mod)
+            if got != want['B']:
+                viol.append((['revision-within-one-second', 'tree-of-the-earlier-revision' if got == want['A'] else 'tree-differs'],
+                             f'the module file was saved again 0.5 s after the cached revision: the session got {"the tree of the earlier revision" if got == want["A"] else "another tree"}', {'two_roots': [src_a, src_b]}))
     except Exception as e:  # noqa
         viol.append((['two-project-roots', 'raises', type(e).__name__], f'{type(e).__name__}: {e}', {'two_roots': [src_a, src_b]}))
     finally:
